@@ -445,6 +445,42 @@ def abstract(h):
     return ['JOther']
 
 
+def run_biglambda(case):
+    """validators whose lambda lives in a very large source file: beartype warns that it will not parse the file; that warning must
+    be a BeartypeWarning like every other"""
+    import importlib
+    import tempfile
+    d = tempfile.mkdtemp(prefix='c11big_')
+    name = 'c11_big_module_%d' % os.getpid()
+    with open(os.path.join(d, name + '.py'), 'w') as f:
+        f.write('from typing import Annotated\nfrom beartype import beartype\nfrom beartype.vale import Is\n')
+        f.write('TABLE = (\n' + ''.join('    %d,\n' % i for i in range(130000)) + ')\n')
+        f.write('Positive = Annotated[int, Is[lambda x: x > 0]]\n@beartype\ndef f(x: Positive) -> Positive:\n    return x\n')
+    sys.path.insert(0, d)
+    del EMITTED[:]
+    out = {}
+    try:
+        with warnings.catch_warnings(record=True):
+            warnings.simplefilter('always')
+            mod = importlib.import_module(name)
+            try:
+                mod.f(-1)
+            except BeartypeException:
+                pass
+            try:
+                die_if_unbearable(-1, mod.Positive)
+            except BeartypeException:
+                pass
+        out['size'] = os.path.getsize(os.path.join(d, name + '.py'))
+        out['warnings'] = [{'cls': cat.__name__, 'beartype': issubclass(cat, BeartypeWarning), 'site': fn[len(BEARTYPE_DIR):]}
+                           for cat, fn in EMITTED if fn.startswith(BEARTYPE_DIR)]
+    finally:
+        sys.path.remove(d)
+        import shutil
+        shutil.rmtree(d, ignore_errors=True)
+    return out
+
+
 def main():
     payload = json.load(sys.stdin)
     sys.setrecursionlimit(payload.get('recursionlimit', 1000))
@@ -460,6 +496,8 @@ def main():
                 out.append(run_cached(case))
             elif kind == 'validate':
                 out.append(run_validate(case))
+            elif kind == 'biglambda':
+                out.append(run_biglambda(case))
         except BaseException as e:   # noqa: harness trouble, reported as such
             import traceback
             out.append({'harness_error': traceback.format_exc()[-1500:]})
